@@ -1,21 +1,11 @@
-import asyncio, signal, sys
-from vf.servers import make_env
-from vf.net import Conn
-class SC(Conn):
-    def _on_write(self, data):
-        self.out += data; self._wake_all()
-async def main():
-    env = await make_env('dict')
-    c = SC(1)
-    c.start(env.sieve)
-    await asyncio.sleep(0.05)
-    c.feed(b'PUTSCRIPT "x" {0+}\r\n')
-    await asyncio.sleep(0.05)
-    print('server idle, feeding EOF', flush=True)
-    c.feed_eof()
-    await asyncio.sleep(0.05)
-    print('loop still responsive; task done:', c.task_done)
-def alarm(*a):
-    print('ALARM: event loop blocked for 3 s of wall time -> server task spins'); sys.exit(0)
-signal.signal(signal.SIGALRM, alarm); signal.alarm(3)
-asyncio.run(main())
+import cProfile, pstats, time
+from vf.checks.c19 import CHECK
+from vf.runner import _safe_run
+CHECK.setup_worker()
+specs = list(CHECK.cases('quick', 0))[:120]
+t=time.time()
+pr = cProfile.Profile(); pr.enable()
+for s in specs: _safe_run(CHECK, s)
+pr.disable()
+print('total %.2f' % (time.time()-t))
+pstats.Stats(pr).sort_stats('cumulative').print_stats(28)
